@@ -156,8 +156,17 @@ OPS = {
 }
 
 
+def _relation_of(op: str) -> str:
+    """The relation a spelling names: the sixteen documented spellings, and any other entity / word form reduced to what it says."""
+    if op in OPS:
+        return OPS[op]
+    t = op.strip().replace("&lt;", "<").replace("&gt;", ">").replace("&amp;", "&")
+    t = {"&le;": "<=", "&ge;": ">=", "&ne;": "!=", "&eq;": "==", "le": "<=", "ge": ">=", "ne": "!="}.get(t, t)
+    return {"==": "eq", "!=": "ne", "<": "lt", ">": "gt", "<=": "le", ">=": "ge"}[t]
+
+
 def relate(op: str, a, b) -> bool:
-    k = OPS[op]
+    k = _relation_of(op)
     if isinstance(a, float) and math.isnan(a) or isinstance(b, float) and math.isnan(b):
         return k == "ne"
     return {"eq": a == b, "ne": a != b, "lt": a < b, "gt": a > b, "le": a <= b, "ge": a >= b}[k]
